@@ -70,15 +70,14 @@ func writeWorld(dir, logFile string, w free.World) {
 			name = "npx"
 		}
 		probeOK, runOK := st != free.ProbeFails, st == free.Installed
+		// a command naming an existing file is a run, anything else a probe
+		// (--help, -v, --version, -h ...: whatever the tree uses to see if the tool works)
+		isRun := "run=0; for a in \"$@\"; do [ -f \"$a\" ] && run=1; done\n"
 		var body string
 		switch t {
 		case "goimports":
-			body = "exit 0" // goimports is only ever run, never probed directly
-			if !runOK {
-				body = failBody(failMode)
-			}
 			if st == free.ProbeFails {
-				continue // probe fails for goimports == `which` does not find it
+				continue // probe fails for goimports == it is not found
 			}
 			if !runOK && failMode == "start" {
 				free.Unstartable[t] = true
@@ -86,12 +85,9 @@ func writeWorld(dir, logFile string, w free.World) {
 				os.WriteFile(filepath.Join(dir, name), []byte("#!/nonexistent/interpreter\n"), 0o755)
 				continue
 			}
-		case "dart":
-			body = fmt.Sprintf("case \"$2\" in --help) exit %d;; esac\n%s", b2i(!probeOK), runEnd(runOK))
-		case "prettier":
-			body = fmt.Sprintf("case \"$2\" in -v) exit %d;; esac\n%s", b2i(!probeOK), runEnd(runOK))
-		case "pg_format":
-			body = fmt.Sprintf("case \"$1\" in -v) exit %d;; esac\n%s", b2i(!probeOK), runEnd(runOK))
+			body = isRun + "[ $run = 0 ] && exit 0\n" + runEnd(runOK)
+		default:
+			body = isRun + fmt.Sprintf("[ $run = 0 ] && exit %d\n", b2i(!probeOK)) + runEnd(runOK)
 		}
 		put(name, body)
 	}
